@@ -12,5 +12,5 @@ package state
 
 //@ func (*Task).Get
 //@   trusted
-//@   preserves Task.kind Task.id Task.status Task.waitedStatus Task.state Task.change Task.lanes Task.waitTasks Task.haltTasks E:Ref E:Str C:Str C:Ref
+//@   preserves Task.kind Task.id Task.status Task.waitedStatus Task.state Task.change Task.lanes Task.waitTasks Task.haltTasks
 //@   ensures result == taskGetErr(t, key)
